@@ -155,6 +155,34 @@ CLAIMED = {
         "Trusted: RNG stub = deterministic function of random_state (NumPy's generator outside); bit-for-bit float reproducibility "
         "outside; one epoch, stub environment; histories of length <= 2.",
         "DESIGN.md §4 C12", "symbolic execution of the repository source (symx) under recording/uninterpreted stubs: identity of symbolic terms and recorded calls (z3 only for path feasibility)"),
+    "C04": (
+        "Claimed in part.  The real fit (one or two epochs) of every gradient-trained family is executed symbolically over "
+        "family x solver x batch_size in {1,n-1,n,n+1,None} x GEMINI kind under the stub environment; an exception on any feasible "
+        "path is a counterexample; after fit, on every path: labels_ range/length, predict_proba rows positive and summing to one, "
+        "predict == arg-max == labels_, score hands the GEMINI predict_proba(X) and the affinity of X, n_iter_, optimiser class.  "
+        "A concrete public-API witness for all 18 estimators (real numerics, score recomputed from the definition) guards the stubbed "
+        "part against vacuity.",
+        "Trusted: stub environment; n=3 (2 for MLP families in the quick tier), K=2, one epoch; GEMINI values stubbed in the grid "
+        "(C01/C02 cover them); termination/coherence beyond these shapes, convergence quality and scikit-learn's validation are outside.",
+        "DESIGN.md §4 C04", "symbolic execution of the repository source (symx) under stubs: symbolic data/parameters, decisions forked with z3 feasibility, post-conditions by normal form / solver query / term identity"),
+    "C17": (
+        "Claimed in part: algebraic definedness.  The real GEMINI evaluate(return_grad=True), both proximal operators and Douglas' "
+        "forward/backward run symbolically (ties and exact zeros reachable) on the families that are degenerate in exact arithmetic "
+        "(duplicated samples / clusters, K=1, n=1, K=n one-hot, uniform predictions, constant or zero affinities, zero weight rows, "
+        "coinciding cut points, duplicated columns); every output must be defined on every feasible path (guards proved by the "
+        "solver; x/0 with x != 0 follows IEEE).",
+        "NOT covered and stated as such: features scaled by a thousand, soft-max saturation, float under/overflow (no SMT theory of "
+        "floating-point exp; in exact arithmetic exp never saturates); whole fit/path runs on degenerate data.",
+        "DESIGN.md §4 C17", None),
+    "C20": (
+        "Claimed in part.  NumPy's generator is replaced by tagged symbolic draws (each draw remembers the distribution parameters "
+        "it was requested with; labels are symbolic integers, forked); means, covariances, proportions symbolic: sample i is row i of "
+        "the draw of the component named by its label, requested moments equal the documented ones (d=1: std^2 == variance, by "
+        "solver), proportions forwarded, shapes/label ranges, rejection <=> documented conditions (comparisons forked; symbolic "
+        "eigenvalues); Student-t formula by normal form; gstm / celeux_* forward the documented parameters.",
+        "NOT claimed: 'within sampling error' and seed determinism (NumPy's RNG); constants of celeux_two's dependent variables. "
+        "Replays use sample statistics of the real generators.",
+        "DESIGN.md §4 C20", "symbolic execution of the repository source (symx) under stubs: symbolic data/parameters, decisions forked with z3 feasibility, post-conditions by normal form / solver query / term identity"),
 }
 
 NOT_APPLICABLE = {
